@@ -1,7 +1,7 @@
 #!/bin/bash
 # confirm_seed.sh <PROP-ID> <n>: confirm seed /tmp/seed/<ID>/seed_out/change<n>.diff in a scratch copy of /repo HEAD:
 # demo passes without the change, fails with it; the pinned test-suite still passes with it.
-id=$1; n=$2; src=/tmp/seed/$id/seed_out
+id=$1; n=$2; src=${SEEDROOT:-/tmp/seed}/$id/seed_out
 d=/tmp/ev/confirm_${id}_$n
 rm -rf $d && mkdir -p $d && (cd /repo && git archive HEAD | tar -x -C $d) || exit 2
 mkdir -p $d/seed_out && cp $src/demo$n.py $d/seed_out/
